@@ -139,6 +139,45 @@ theorem depthwise_in_eq_out (p : Prog) (hwf : WF p) (i : Nat) (hi : i < p.length
   · rw [h, ← hla]; rfl
   · exact absurd h (ha x)
 
+/-- **A layer module invoked at several call sites reads tensors quantized by one object** (after
+3725f20 the tensors fed to its call sites are tied into one sharing component): the module's single
+`in_mps_quantizer` is the out-quantizer of the producer at *every* call site. -/
+theorem reused_layer_sites_share_in_quantizer (p : Prog) (hwf : WF p) (i : Nat) (hi : i < p.length)
+    (hd : (p.nd i).dup = true) (hl : (p.nd i).kind.isLayer = true) (ht : (p.nd i).ta < i)
+    (ha : ∀ x, (tags p).getD (p.nd i).a .dflt ≠ .inp x)
+    (hb : ∀ x, (tags p).getD (p.nd i).ta .dflt ≠ .inp x) :
+    (tags p).getD (p.nd i).a .dflt = (tags p).getD (p.nd i).ta .dflt := by
+  have hne : (p.nd i).kind ≠ .input := by
+    intro h; rw [h] at hl; simp [Kind.isLayer] at hl
+  have hai := (hwf i hi hne).1
+  have htie := labels_tie p hwf i hi hd hl ht
+  rcases tags_cases p hwf (p.nd i).a (by omega) with h | ⟨x, h⟩
+  · rcases tags_cases p hwf (p.nd i).ta (by omega) with h' | ⟨x, h'⟩
+    · rw [h, h', htie]
+    · exact absurd h' (hb x)
+  · exact absurd h (ha x)
+
+/-- siamese branches: `sh` is applied to `relu(ca(x))` and to `relu(cb(x))`, the results are summed -/
+def siamese : Prog :=
+  [{ kind := .input, cin := 3, cout := 3 },
+   { kind := .conv, a := 0, cin := 3, cout := 4, k0 := 3, k1 := 3, o0 := 4, o1 := 4 },
+   { kind := .pass, a := 1 },
+   { kind := .conv, a := 0, cin := 3, cout := 4, k0 := 3, k1 := 3, o0 := 4, o1 := 4 },
+   { kind := .pass, a := 3 },
+   { kind := .conv, a := 2, cin := 4, cout := 6, o0 := 4, o1 := 4 },
+   { kind := .conv, a := 4, cin := 4, cout := 6, o0 := 4, o1 := 4, dup := true, ta := 2 },
+   { kind := .add, a := 5, b := 6 },
+   { kind := .flatten, a := 7, mult := 16 },
+   { kind := .linear, a := 8, lt := .linear, cin := 96, cout := 2 },
+   { kind := .output, a := 9 }]
+
+/-- **Regression witness for 3725f20**: with the tie edge both call sites of `sh` read the same
+quantizer object; without it (`labelsPinned`) the two producers sit in different components, so
+the module's single in-quantizer could only be right for one of its call sites. -/
+theorem untied_call_sites_differ :
+    inQ siamese (.layer 5) = inQ siamese (.layer 6) ∧
+    (labelsPinned siamese).getD 1 0 ≠ (labelsPinned siamese).getD 3 0 := by decide
+
 /-! ### non-vacuity, and the regression witness for the walk of the pinned tree -/
 
 /-- `x → dw → relu → conv → relu → flatten → linear → output` -/
